@@ -1,4 +1,8 @@
 ENGINES = [
+    {"name": "json", "path": "coq/theories (Utf8, GoInt, GoUnquote, Json, JsonDoc + *Proofs, RoundTrip, RunJson) + harness/json.go", "serves_properties": ["C01", "C02", "C03", "C04", "C16", "C20"],
+     "kind_free_text": "Coq theorems over transcriptions of the serializer and of the two parser state machines, an RFC 8259 grammar with layout and a reference decoder; correspondence: the same texts through the implementation and the model with float-conversion tables from Go"},
+    {"name": "native", "path": "coq/theories (Native, NativeProofs, RunNative) + harness/native.go", "serves_properties": ["C12", "C13"],
+     "kind_free_text": "Coq theorems over a model of parseVal's type switch and of the native export; correspondence: Go values of every flavour through every entry point"},
     {"name": "heap", "path": "coq/theories (Heap, Slice, HeapProofs, RunHeap) + harness/heap.go, slice.go", "serves_properties": ["C05", "C06", "C08", "C09", "C10", "C11"],
      "kind_free_text": "Coq theorems over a reference-semantics heap model and a slice/backing-array model; correspondence: random programs, outcome + canonical heap hash after every step"},
     {"name": "pure", "path": "coq/theories (Value, Aggregates, Views, Sorting, Equality) + harness", "serves_properties": ["C07", "C14", "C17", "C18"],
@@ -104,5 +108,66 @@ TEXT = {
                 "C11_set_never_panics; C11_set_frame: only visited containers are rewritten, containers keep their kind (right-kind intermediates reused by reference); "
                 "C11_unset: exactly the addressed field/element is removed; C11_unset_frame/absent_key/index_out_of_range: nothing else changes, unresolved paths change nothing.",
         "note": "holds after the repair of D6 (fix: commit b2b927c); partial in one named respect: the model pads with any index, the process cannot (generated indices stay below n+5); no axioms.",
+    },
+    "C01": {
+        "engine": "json", "design_ref": "DESIGN.md section 6, C01",
+        "technique": "Coq proof (serializer = render of the canonical derivation; parser correct on every rendered derivation; composition) + differential correspondence check",
+        "text": "C01_list/C01_object: for every value tree in the domain (every int64, finite float64, valid-UTF-8 string or key, any nesting) parsing the model's String() returns the ORIGINAL tree "
+                "(Leibniz equality: kinds, bit patterns of floats incl. whole values and -0, byte-identical strings), consumes the whole text; C01_equals_*, C01_reparse_* as corollaries. "
+                "The same serializer/parser models are run against the code on every check, the round trip itself is evaluated on the implementation.",
+        "note": "holds after the repairs D1 (338010f) and D2 (c69150a); " + 'float-text oracles with contract F1/F2/F3/F4 (premises of the theorems; validated inside Coq on every float and token of every run); strconv/utf8/unicode functions transcribed by hand and validated differentially; no axioms.',
+    },
+    "C02": {
+        "engine": "json", "design_ref": "DESIGN.md section 6, C02",
+        "technique": "Coq proof (String() is the rendering of a well-formed derivation of an RFC 8259 grammar whose meaning is the value; a reference decoder proved sound and complete for that grammar) + encoding/json as independent decoder in the harness",
+        "text": "C02_valid_and_same_data: ser v = render d with doc_ok d and denote d = v; C02_reference_decoder: the independent recursive-descent decoder returns exactly that derivation; "
+                "C02_decoder_decides_grammar/complete/sound: the decoder decides the grammar, so validity is not an artefact. On every run String() of random trees is decoded by encoding/json, by the Coq "
+                "reference decoder, and compared token by token with the model.",
+        "note": "holds after the repair D3 (45716dd); " + 'float-text oracles with contract F1/F2/F3/F4 (premises of the theorems; validated inside Coq on every float and token of every run); strconv/utf8/unicode functions transcribed by hand and validated differentially; no axioms.',
+    },
+    "C03": {
+        "engine": "json", "design_ref": "DESIGN.md section 6, C03",
+        "technique": "Coq proof (induction over derivations of the JSON grammar with layout; run lemmas per lexical phase of the two state machines; strconv.Unquote and the escape pre-pass proved correct on every string item) + differential check against encoding/json",
+        "text": "C03_list/C03_object: for EVERY well-formed derivation with array/object root — all whitespace placements, all escape spellings incl. the escaped solidus and surrogate pairs, all number spellings "
+                "incl. out-of-range integers — the parser model returns exactly the document's meaning under the number rule and stops after the root's closing bracket. Lone surrogate escapes have no meaning and are excluded "
+                "through denote; nesting depth is unbounded in the theorem (the process stack is not: known finding K2 under C04).",
+        "note": "holds after the repairs D2 (c69150a) and D4 (3cb6490); only F3 (true/false are not floats) is assumed of ParseFloat; " + 'float-text oracles with contract F1/F2/F3/F4 (premises of the theorems; validated inside Coq on every float and token of every run); strconv/utf8/unicode functions transcribed by hand and validated differentially; no axioms.',
+    },
+    "C04": {
+        "engine": "json", "design_ref": "DESIGN.md section 6, C04",
+        "technique": "Coq proof (fuel sufficiency = totality; consumed-input invariant giving UTF-8 validity; extension lemma + round trip giving rejection of every proper prefix) + differential check on prefixes, ill-formed UTF-8, garbage, mutations, files; sub-process probe for the stack",
+        "text": "C04_total_*: no input makes either machine diverge (result is a container xor an error by construction of the result type, deterministic as a function); C04_utf8_*/C04_illformed_rejected: an accepted document is "
+                "well-formed UTF-8 between its root brackets; C04_prefix_*: every proper prefix of every String() is rejected; C04_file: ParseFile = ParseObject on the bytes. "
+                "PARTIAL in one named respect: that the Go process survives deep nesting is runtime truth — known finding K2 (stack overflow at 3,000,000 levels) is re-demonstrated in a sub-process on every run.",
+        "note": "os.ReadFile modelled as an optional byte string; " + 'float-text oracles with contract F1/F2/F3/F4 (premises of the theorems; validated inside Coq on every float and token of every run); strconv/utf8/unicode functions transcribed by hand and validated differentially; no axioms.',
+    },
+    "C16": {
+        "engine": "json", "design_ref": "DESIGN.md section 6, C16",
+        "technique": "Coq proof (json.Indent modelled at specification level as reference-decode + canonical re-layout; layout lemmas; composition with C02) + differential check of the exact bytes",
+        "text": "C16_canonical/nonempty/valid/same_data/idempotent: for every value in the domain and every n, FormatString(n) = the canonical layout of the tokens String() writes, is valid JSON denoting the same data, and re-indenting reproduces it; "
+                "C16_*_lines: one element per line, n spaces per level, empty containers on one line. The panic for n outside 0..10 and the byte-exact output are compared with the code on every run.",
+        "note": "json.Indent is modelled (spec level), not transcribed — in the trusted base; holds after D3 (45716dd); " + 'float-text oracles with contract F1/F2/F3/F4 (premises of the theorems; validated inside Coq on every float and token of every run); strconv/utf8/unicode functions transcribed by hand and validated differentially; no axioms.',
+    },
+    "C20": {
+        "engine": "json", "design_ref": "DESIGN.md section 6, C20",
+        "technique": "Coq proof (line-counter invariant threaded through both state machines and their mutual recursion, for every input and every error) + differential check of class, cited line and cited character",
+        "text": "C20_line_*: for EVERY rejected input whose error cites a line, the number is 1 + the newlines before the offending character counted from the start of the whole input; C20_machines: at any nesting depth the offending character "
+                "is the unexpected character itself (never a blank/newline) or the delimiter , ] } ending an invalid literal; C20_counter_threaded: an accepted nested container advances the shared counter by exactly the newlines it consumed.",
+        "note": 'float-text oracles with contract F1/F2/F3/F4 (premises of the theorems; validated inside Coq on every float and token of every run); strconv/utf8/unicode functions transcribed by hand and validated differentially; no axioms.',
+    },
+    "C12": {
+        "engine": "native", "design_ref": "DESIGN.md section 6, C12",
+        "technique": "Coq proof (case analysis of the type-switch model, induction over nested []any/map[string]any, exact float32->float64 conversion over dyadic rationals) + differential check through 13 entry points",
+        "text": "C12_kind (one of seven kinds per Go type), C12_int_value / C12_uint_beyond_maxint_wraps, C12_float32_exact (subnormals included), C12_slice_any / C12_map_any (recursive normalisation), "
+                "C12_reject* (any other type panics, also nested), C12_new_list_from, C12_typed_getters. Every entry point is checked on the code to store what NewList stores.",
+        "note": "parseVal's switch is transcribed by hand (Native.norm) and compared on every run; the reflect-based classification of Go values in the harness is trusted; no axioms.",
+    },
+    "C13": {
+        "engine": "native", "design_ref": "DESIGN.md section 6, C13",
+        "technique": "Coq proof (induction over value trees: export is plain data, export/import are mutually inverse on canonical trees, snapshots are one level) + dynamic mutation predicate for non-aliasing",
+        "text": "C13_native_is_plain, C13_export_faithful, C13_roundtrip, C13_export_canonical, C13_slice_snapshot / C13_dict_snapshot / C13_dict_keys. "
+                "PARTIAL in one named respect: that a Go map/slice handed out or taken in shares no storage with the container is a fact of Go's type system plus a harness predicate "
+                "(export, snapshot, source value and container are each mutated on every case), not a theorem.",
+        "note": "exports/imports are values in the model; no axioms.",
     },
 }
